@@ -49,6 +49,10 @@ pub struct Sc {
 	/// the n-th `kill()` of the command fails once (the process stays alive)
 	#[serde(default)]
 	pub kill_fault: Option<usize>,
+	/// every change arrives together with a signal that watchexec merely forwards to the
+	/// command (USR2, as the signal source would deliver it): the batch holds both
+	#[serde(default)]
+	pub with_signal: bool,
 }
 
 impl Sc {
@@ -260,6 +264,12 @@ async fn body(sc: &Sc, args: watchexec_cli::args::Args, default_schedule: bool) 
 			Act::Change => {
 				sent += 1;
 				simchild::note("change", sent as i64, 0, "");
+				if sc.with_signal {
+					let sig = Event { tags: vec![Tag::Source(Source::Os), Tag::Signal(watchexec_signals::Signal::User2)], metadata: Default::default() };
+					if wx.send_event(sig, Priority::High).await.is_err() {
+						simchild::note("change-send-failed", sent as i64, 0, "");
+					}
+				}
 				if wx.send_event(change_event(sent), Priority::Normal).await.is_err() {
 					simchild::note("change-send-failed", sent as i64, 0, "");
 				}
@@ -410,7 +420,11 @@ fn at_end(sc: &Sc, main_finished: bool, default_schedule: bool) {
 		}
 	}
 	let sigs: Vec<(usize, u64, usize, i32)> =
-		f.log.iter().enumerate().filter_map(|(i, r)| if let Ev::Sig { id, sig, ok: true } = &r.ev { Some((i, r.t, *id, *sig)) } else { None }).collect();
+		f.log.iter().enumerate().filter_map(|(i, r)| match &r.ev {
+			// (a forwarded USR2 of the with-signal scenarios is not something the mode sends)
+			Ev::Sig { id, sig, ok: true } if *sig != 12 => Some((i, r.t, *id, *sig)),
+			_ => None,
+		}).collect();
 	let kills: Vec<(usize, u64, usize)> = f.log.iter().enumerate().filter_map(|(i, r)| if let Ev::Kill { id, ok: true } = &r.ev { Some((i, r.t, *id)) } else { None }).collect();
 	// every mode: a run ends by itself or through the documented stop sequence (signal, then
 	// kill + wait) — its handle is never simply dropped while it runs (which would SIGKILL
@@ -559,7 +573,7 @@ pub fn scenarios(tier: Tier) -> Vec<(Sc, Vec<Bounds>)> {
 					if (int || st == 0) && !(restart || matches!(mode, Mode::Signal)) {
 						continue;
 					}
-					let sc = Sc { mode, changes, ignores, postpone, stop_signal_int: int, stop_timeout: st, delay_run: delay, debounce: deb, horizon: st + deb + 2, wait_fault: None, kill_fault: None };
+					let sc = Sc { mode, changes, ignores, postpone, stop_signal_int: int, stop_timeout: st, delay_run: delay, debounce: deb, horizon: st + deb + 2, wait_fault: None, kill_fault: None, with_signal: false };
 					let base_variant = !postpone && !int && st == 2 && !delay && deb == 0;
 					let passes: Vec<Bounds> = match (tier, changes) {
 						(Tier::Quick, 1) => [both(0), both(1)].concat(),
@@ -579,6 +593,13 @@ pub fn scenarios(tier: Tier) -> Vec<(Sc, Vec<Bounds>)> {
 						(Tier::Thorough, _) => both(0),
 					};
 					out.push((sc.clone(), passes));
+					// the change shares its batch with a signal that is merely forwarded to the
+					// command: the change is handled all the same
+					if (base_variant || (deb == 1 && !postpone && !int && st == 2 && !delay)) && changes <= 2 {
+						let mut f = sc.clone();
+						f.with_signal = true;
+						out.push((f, if changes == 1 { [both(0), both(1)].concat() } else { both(0) }));
+					}
 					// a transient wait() error while the command runs must not change what the
 					// mode does with a change (default schedule)
 					if base_variant && changes <= 2 && !shorthand {
